@@ -593,6 +593,67 @@ func runC10(c *core.Ctx) {
 		c.Floor("appends of a tag value to the answer", n, 1)
 	})
 
+	c.Clause("D10", func() {
+		// A cache entry's values are in arrival order until Deduplicate sorted them. A positional read of
+		// entry.values (first/last element, an index) is meaningful only after the sort: a range delete that looks at
+		// values[0] / values[n-1] of an unsorted entry to decide that nothing overlaps leaves in-range points behind.
+		// Matcher liveness: positional reads of tsm1.Values expressions are found elsewhere in the package.
+		valuesF := c.P.LookupField(tsm1, "entry", "values")
+		c.Need(valuesF != nil, "field entry.values")
+		all, n := 0, 0
+		for _, g := range c.P.FuncsIn(tsm1) {
+			if g.Body == nil {
+				continue
+			}
+			info := g.Info()
+			ast.Inspect(g.Body, func(nd ast.Node) bool {
+				ix, ok := nd.(*ast.IndexExpr)
+				if !ok {
+					return true
+				}
+				t := info.TypeOf(ix.X)
+				if t == nil || !strings.HasSuffix(t.String(), "tsm1.Values") {
+					return true
+				}
+				all++
+				se, ok := ast.Unparen(ix.X).(*ast.SelectorExpr)
+				if !ok || info.ObjectOf(se.Sel) != types.Object(valuesF) {
+					return true
+				}
+				n++
+				// dominated by a Deduplicate of the same field in this function?
+				dedup := func(e *core.Event) bool {
+					if e.Kind != core.EvCall || e.Call == nil {
+						return false
+					}
+					fs, ok := e.Call.Fun.(*ast.SelectorExpr)
+					if !ok || fs.Sel.Name != "Deduplicate" {
+						return false
+					}
+					rs, ok := ast.Unparen(fs.X).(*ast.SelectorExpr)
+					return ok && info.ObjectOf(rs.Sel) == types.Object(valuesF)
+				}
+				var at *core.Event
+				for _, e := range g.Graph().Events {
+					if e.Node != nil && e.Node.Pos() <= ix.Pos() && ix.Pos() < e.Node.End() {
+						if at == nil || e.Pos() >= at.Pos() {
+							at = e
+						}
+					}
+				}
+				good := false
+				if at != nil {
+					target := at
+					good = len(g.MustPrecede(dedup, func(x *core.Event) bool { return x == target })) == 0
+				}
+				c.Check("positional-read-only-after-sort", fmt.Sprintf("%s/entry.values[...]#%d", g.Root().Name, n), c.P.Pos(ix.Pos()), good,
+					"entry.values is indexed on a path where it has not been sorted by Deduplicate: the values are in arrival order, so first/last element say nothing about the time range the entry covers")
+				return true
+			})
+		}
+		c.Floor("positional reads of tsm1.Values expressions (matcher liveness)", all, 5)
+	})
+
 	c.Clause("D8", func() {
 		// Acknowledged points that are not yet in an installed TSM file live in Cache.store and, while a cache
 		// snapshot is being written, in Cache.snapshot. A delete has to filter both containers or keep a
